@@ -6,6 +6,7 @@ reader reads a header of calcsize(format) bytes, the payload size is the header'
 returned is that read; the record generator yields each record it read and stops only after a finish id; _pull
 writes the payload of every DATA record exactly once, in order, leaves only on DONE, sends RECV(path) first; the
 progress callback is contained and sees len(chunk); pull closes the stream in `finally`.
+_pull / pull return normally only after RECV was sent and the records were read (no early return).
 """
 import ast
 
